@@ -22,6 +22,7 @@ func init() {
 				"FP: every parameter list of 0-2 (quick) / 0-3 (thorough) types plus optional variadic tail x 3 result shapes; FR: every result list of 0-2 types x 2 parameter shapes; CP / CR: the same for commands (results none / error / channel shapes); WIDE: functions and commands of 4-12 (quick) / 16 (thorough) int parameters with one parameter of every other bridgeable type at every position, called with matching arguments, every single-argument replacement and n-1 / n+1 arguments; NAMES: two distinct types printed alike as parameter types of two handlers, every order, one or two runners, functions and commands; REFUSED-KEEPS: every kind of refused registration under a name that already has a handler (host function / command, built-ins floor, string, visited), after which the existing handler must answer as before; AB: a converted command abandoned by RestoreAt while its handler runs, then executed again (each call reports its own outcome); NF: non-function values {nil, 0, \"f\", struct{}{}, a channel, a pointer to a function}; " +
 				"each registered through ConvertAndAddFunction / ConvertAndAddCommand with a reflect.MakeFunc probe; for every accepted registration every argument list of length 0-3 (quick) / 0-4 (thorough) over {number 3.7, number -2, number 5000000000 (beyond 32 bits; only compared for parameter kinds it fits), boolean, string} is sent through real script calls (<<call f(..)>>, {f(..)}, <<cmd ..>>); " +
 				"oracle (implications only): registration never panics; non-functions and signatures with a parameter or result outside the bridgeable kinds are refused; if accepted, a call never panics, a count / type mismatch is an error, a matching call delivers the Go conversion of each script value to the declared type and the result (or error) comes back converted; " +
+				"SEQ: one registration (2-3 parameters or a parameter and a variadic tail) called two or three times in a row with every combination of argument lists, refused calls among them: every call is judged on its own arguments; " +
 				"a case is one (signature, argument list, call form); non-trivial = accepted signature",
 			StatesMean:  "distinct (signature, argument list, call form) cases; transitions = real Next calls",
 			Assumptions: []string{"whether a bridgeable-looking signature (e.g. uint parameters) is accepted is not constrained", "a nil value of function type is not tried (whether it is 'a Go function' is not settled by the statement)", "script numbers outside the range of the declared integer kind are not sent"},
@@ -1102,6 +1103,186 @@ func runC16(ctx *report.Ctx) {
 			}
 		} else if o.K != yc.OLine || o.Text != "L1" {
 			report1(c, "AB", "result-error", w, "after the second execution expected L1, got "+o.String())
+		}
+	})
+
+	// SEQ: one registration called several times in a row with different argument lists (refused calls among them): every
+	// call is judged on its own arguments, whatever the calls before it were given and whether they were refused
+	seqTypes := []reflect.Type{reflect.TypeOf(int(0)), reflect.TypeOf(""), reflect.TypeOf(true), reflect.TypeOf(float64(0)), reflect.TypeOf(myInt(0))}
+	seqVals := []scriptArg{c16ArgValues[1], c16ArgValues[2], c16ArgValues[3]}
+	part(ctx, "SEQ", -1, func(c *explore.Chooser) {
+		isCmd := c.Choose(2, "kind") == 1
+		shape := c.Choose(4, "shape") // 0: two parameters, all types and values, two calls; 1: two parameters, three calls; 2: three parameters, two calls; 3: one parameter and a variadic tail, two calls
+		nt, nparams, ncalls, vals := 3, 2, 2, seqVals
+		switch shape {
+		case 0:
+			nt, vals = len(seqTypes), c16ArgValues
+		case 1:
+			ncalls = 3
+		case 2:
+			nparams = 3
+		}
+		var in []reflect.Type
+		for i := 0; i < nparams; i++ {
+			in = append(in, seqTypes[c.Choose(nt, "param")])
+		}
+		variadic := shape == 3
+		if variadic {
+			in[1] = reflect.SliceOf(in[1])
+		}
+		var out []reflect.Type
+		if isCmd && c.Choose(2, "result") == 1 {
+			out = []reflect.Type{errorType}
+		}
+		if !c.Mine() {
+			return
+		}
+		var lists [][]scriptArg
+		for k := 0; k < ncalls; k++ {
+			n := nparams
+			if variadic {
+				n = 1 + c.Choose(3, "nargs")
+			}
+			var l []scriptArg
+			for i := 0; i < n; i++ {
+				l = append(l, vals[c.Choose(len(vals), "arg")])
+			}
+			lists = append(lists, l)
+		}
+		ft := reflect.FuncOf(in, out, variadic)
+		var b strings.Builder
+		b.WriteString("title: A\n---\n")
+		var shown []string
+		for _, l := range lists {
+			if isCmd {
+				a := strings.ReplaceAll(argsSrc(l, " "), `"s"`, "s")
+				b.WriteString("<<cmd " + a + ">>\nsep\n")
+				shown = append(shown, "<<cmd "+a+">>")
+			} else {
+				b.WriteString("<<call f(" + argsSrc(l, ", ") + ")>>\nsep\n")
+				shown = append(shown, "f("+argsSrc(l, ", ")+")")
+			}
+		}
+		b.WriteString("===\n")
+		witness := fmt.Sprintf("%s called in a row: %s", sigString(ft), strings.Join(shown, " then "))
+		ctx.Current("SEQ: " + witness)
+		r, err, pan := yc.NewReal([]string{b.String()}, "abc", nil)
+		if err != nil || pan != "" {
+			ctx.HarnessError("C16: harness script does not load: %v %s\n%s", err, pan, b.String())
+			return
+		}
+		probe := reflect.MakeFunc(ft, func(in []reflect.Value) []reflect.Value {
+			mu.Lock()
+			probeLog = append(probeLog, in)
+			mu.Unlock()
+			o := make([]reflect.Value, ft.NumOut())
+			for i := range o {
+				o[i] = reflect.Zero(ft.Out(i))
+			}
+			return o
+		})
+		var regErr error
+		if p := guard(func() {
+			if isCmd {
+				regErr = r.DR.ConvertAndAddCommand("cmd", probe.Interface())
+			} else {
+				regErr = r.DR.ConvertAndAddFunction("f", probe.Interface())
+			}
+		}); p != nil || regErr != nil {
+			report1(c, "SEQ", "register-panic", witness, fmt.Sprintf("registration of a bridgeable signature failed: %v %v", p, regErr))
+			return
+		}
+		for k, args := range lists {
+			match := true
+			var wantArgs []reflect.Value
+			for j, a := range args {
+				var t reflect.Type
+				if variadic && j >= 1 {
+					t = ft.In(1).Elem()
+				} else {
+					t = ft.In(j)
+				}
+				v, ok := expectedArg(a, t)
+				if !ok {
+					match = false
+					break
+				}
+				wantArgs = append(wantArgs, v)
+			}
+			mu.Lock()
+			probeLog = nil
+			mu.Unlock()
+			var ro yc.RealObs
+			deadline := time.Now().Add(20 * time.Second)
+			for {
+				ro = r.Next(0)
+				ctx.AddTransitions(1)
+				if ro.Panic != "" || !ro.Waiting {
+					break
+				}
+				if time.Now().After(deadline) {
+					ctx.HarnessError("C16: command never completed (%s)", witness)
+					return
+				}
+				time.Sleep(20 * time.Microsecond)
+			}
+			ctx.AddEvals(1, 1)
+			ctx.AddTraces(1)
+			if ro.Panic != "" {
+				report1(c, "SEQ", "call-panic", witness, fmt.Sprintf("call %d: Next panicked: %s", k+1, ro.Panic))
+				return
+			}
+			isErr := ro.K == yc.OError
+			ctx.Outcome(fmt.Sprintf("seq cmd=%v call=%d match=%v err=%v", isCmd, k, match, isErr))
+			if isErr {
+				ro = r.Next(0)
+			}
+			if ro.K != yc.OLine || ro.Text != "sep" {
+				report1(c, "SEQ", "call-sequence", witness, fmt.Sprintf("after call %d the dialogue does not go on with the line that follows it: %s", k+1, ro.String()))
+				return
+			}
+			mu.Lock()
+			calls := probeLog
+			mu.Unlock()
+			if !match {
+				if !isErr {
+					report1(c, "SEQ", "mismatch-not-an-error", witness, fmt.Sprintf("call %d: a type mismatch did not yield an error", k+1))
+					return
+				}
+				if len(calls) != 0 {
+					report1(c, "SEQ", "mismatch-invoked", witness, fmt.Sprintf("call %d: the Go function was invoked although the arguments do not match its parameters", k+1))
+					return
+				}
+				continue
+			}
+			if isErr {
+				report1(c, "SEQ", "result-error", witness, fmt.Sprintf("call %d: matching arguments were refused: %s", k+1, ro.String()))
+				return
+			}
+			if len(calls) != 1 {
+				report1(c, "SEQ", "invocations", witness, fmt.Sprintf("call %d: %d invocations of the Go function, 1 expected", k+1, len(calls)))
+				return
+			}
+			var flat []reflect.Value
+			for j, g := range calls[0] {
+				if variadic && j == 1 {
+					for q := 0; q < g.Len(); q++ {
+						flat = append(flat, g.Index(q))
+					}
+				} else {
+					flat = append(flat, g)
+				}
+			}
+			if len(flat) != len(wantArgs) {
+				report1(c, "SEQ", "arguments", witness, fmt.Sprintf("call %d: %d arguments delivered, %d expected", k+1, len(flat), len(wantArgs)))
+				return
+			}
+			for j := range flat {
+				if wantArgs[j].IsValid() && (flat[j].Type() != wantArgs[j].Type() || flat[j].Interface() != wantArgs[j].Interface()) {
+					report1(c, "SEQ", "arguments", witness, fmt.Sprintf("call %d: argument %d delivered as %v (%s), expected %v (%s)", k+1, j, flat[j].Interface(), flat[j].Type(), wantArgs[j].Interface(), wantArgs[j].Type()))
+					return
+				}
+			}
 		}
 	})
 
